@@ -576,12 +576,18 @@ func converse(run *kit.Run) {
 			_, _ = r.Update("GET", "/s/a", h)
 			_, _ = r.Delete("GET", fmt.Sprintf("/conv/%d", i))
 			_ = r.Updates(func(t *fox.Txn) error { return t.Truncate("POST") })
+			if i == 0 {
+				// the route whose handler is in flight is itself updated, deleted and registered again
+				_, _ = r.Delete("GET", "/slow")
+				_, _ = r.Handle("GET", "/slow", h)
+				_, _ = r.Update("GET", "/slow", h)
+			}
 			run.Eval(4)
 		}
 	})
 	run.Case("converse|writers-while-readers-hold-snapshots", true)
 	if !ok {
-		if g := kit.BlockedOnMutex(kit.AllStacks(), "(*Router).Handle", "(*Router).Update", "(*Router).Delete", "(*Router).Updates", "txnWith"); g != "" {
+		if g := kit.BlockedAnywhere(kit.AllStacks(), "github.com/tigerwill90/fox."); g != "" {
 			run.Violate("writer-blocked-by-reader", "writers do not complete while readers hold a read transaction, a View, suspended iterators of every kind, an open Lookup context and an in-flight request\n"+kit.TrimStack(g), nil)
 		} else {
 			run.Inconclusive("writers did not complete within the watchdog while readers were parked")
